@@ -238,6 +238,8 @@ def gen_desc(rng, max_decls=8, used=None):
             name = fresh("Svc")
             nm = rng.randint(1, 4)
             mids = rng.sample(range(0, 12), nm)  # ids in any order: the tree keeps source order, not id order
+            if rng.random() < 0.3:
+                mids = [rng.randint(0, 2) for _ in range(nm)]  # nothing forbids two methods with one id: both stay
             ms = [{"name": rng.choice(WORDS) + str(j), "input": rng.choice(structs), "id": mids[j], "output": rng.choice(structs)}
                   for j in range(nm)]
             d.decls.append({"k": "service", "name": name, "id": rng.randint(0, 200), "methods": ms})
